@@ -12,6 +12,9 @@ import Driver.Sample
 import Driver.Simd
 import Driver.ImageState
 import Driver.Lifetime
+import Driver.Extent
+import Driver.Fill
+import Driver.Format
 /-! `pixdrv <domain>`: reads requests on stdin, writes one reply line per request. -/
 
 partial def loop (h : IO.FS.Stream) (out : IO.FS.Stream) (f : String → String) : IO Unit := do
@@ -38,4 +41,7 @@ def main (args : List String) : IO UInt32 := do
   | ["simd"] => loop stdin stdout Driver.Simd.handle; return 0
   | ["imgstate"] => loop stdin stdout Driver.ImageState.handle; return 0
   | ["lifetime"] => loop stdin stdout Driver.Lifetime.handle; return 0
+  | ["extent"] => loop stdin stdout Driver.Extent.handle; return 0
+  | ["fill"] => loop stdin stdout Driver.Fill.handle; return 0
+  | ["format"] => loop stdin stdout Driver.Format.handle; return 0
   | _ => IO.eprintln "usage: pixdrv <domain>"; return 2
